@@ -288,10 +288,13 @@ func NewSolver(cfg SolverConfig) *Solver {
 		cfg.Timeout = 10 * time.Second
 	}
 	if cfg.Primary == "" {
-		cfg.Primary = "z3"
+		cfg.Primary = os.Getenv("ZSYM_SOLVER")
+	}
+	if cfg.Primary == "" {
+		cfg.Primary = "z3-new"
 	}
 	s := &Solver{primary: newBackend(cfg.Primary, cfg.Timeout)}
-	for _, n := range []string{"z3-new", "cvc5", "cvc5-int"} {
+	for _, n := range []string{"z3", "z3-new", "cvc5", "cvc5-int"} {
 		if n != cfg.Primary {
 			s.fallbacks = append(s.fallbacks, newBackend(n, cfg.Timeout))
 		}
